@@ -533,6 +533,70 @@ fn restore(p: &Proj, rel: &str, state: &Option<Vec<u8>>) {
     }
 }
 
+/// One baseline file, runs started at the project root and in a sub-directory of it (which names
+/// the project's configuration with `--config`; configurations are not discovered upwards): a key
+/// names a path of the project, so a file of the sub-directory never answers for (or retires the
+/// entry of) the root's file of the same relative name.
+fn subdir_case(sink: &mut Sink, scratch: &str, bin: &str) {
+    if !sink.want() {
+        sink.skip();
+        return;
+    }
+    let dir = PathBuf::from(scratch).join(format!("sub{}", sink.n));
+    let _ = std::fs::remove_dir_all(&dir);
+    std::fs::create_dir_all(dir.join("src")).unwrap();
+    let p = Proj { dir: dir.clone(), bin: bin.to_string() };
+    std::fs::write(dir.join(".sloc-guard.toml"), "version = \"2\"\n[content]\nmax_lines = 5\nextensions = [\"rs\"]\n").unwrap();
+    p.write_file("a.rs", 30);
+    p.write_file("src/a.rs", 1);
+    p.write_file("src/big.rs", 9);
+    let run_in = |sub: &str, args: &[&str]| -> (i32, String) {
+        let o = std::process::Command::new(bin).args(args).current_dir(dir.join(sub)).env("NO_COLOR", "1").output().expect("run sloc-guard");
+        (o.status.code().unwrap_or(-1), String::from_utf8_lossy(&o.stdout).into_owned())
+    };
+    let mut problems: Vec<String> = vec![];
+    run_in("", &["check", "--no-sloc-cache", "--baseline", "bl.json", "--update-baseline=all"]);
+    let b0 = p.baseline("bl.json").unwrap_or_default();
+    if !(b0.contains_key("a.rs") && b0.contains_key("src/big.rs")) {
+        problems.push(format!("the whole-project update recorded {:?}", b0.keys().collect::<Vec<_>>()));
+    }
+    // a ratchet run started in src/: the root's a.rs is not evaluated, src/big.rs still violates
+    run_in("src", &["check", ".", "--no-sloc-cache", "--config", "../.sloc-guard.toml", "--baseline", "../bl.json", "--ratchet=auto"]);
+    let b1 = p.baseline("bl.json").unwrap_or_default();
+    if b1 != b0 {
+        problems.push(format!("`check . --ratchet=auto` started in src/ changed the baseline from {:?} to {:?} (src/a.rs passes, the root's a.rs was not looked at)", b0.keys().collect::<Vec<_>>(), b1.keys().collect::<Vec<_>>()));
+    }
+    let (rc, _) = run_in("", &["check", "--no-sloc-cache", "--baseline", "bl.json"]);
+    if rc != 0 {
+        problems.push(format!("after the run in src/ the whole-project check with the same baseline exits {rc}"));
+    }
+    // in src/ the recorded violation is honoured under its project-relative key …
+    let (_, out) = run_in("src", &["check", ".", "--no-sloc-cache", "--config", "../.sloc-guard.toml", "--baseline", "../bl.json", "--format", "json"]);
+    if let Some(rs) = parse_results(&out) {
+        if let Some(x) = rs.iter().find(|x| x.path.ends_with("big.rs")) {
+            if x.status != "grandfathered" {
+                problems.push(format!("started in src/, the recorded violation of src/big.rs is reported {}", x.status));
+            }
+        }
+    }
+    // … and retired by a ratchet run in src/ once it is resolved, the root's entry staying
+    p.write_file("src/big.rs", 1);
+    run_in("src", &["check", ".", "--no-sloc-cache", "--config", "../.sloc-guard.toml", "--baseline", "../bl.json", "--ratchet=auto"]);
+    let b2 = p.baseline("bl.json").unwrap_or_default();
+    if b2.contains_key("src/big.rs") || !b2.contains_key("a.rs") {
+        problems.push(format!("after src/big.rs was resolved, the ratchet run in src/ left {:?}", b2.keys().collect::<Vec<_>>()));
+    }
+    // a baseline written from the sub-directory is honoured by the whole-project run
+    p.write_file("src/c.rs", 9);
+    run_in("src", &["check", ".", "--no-sloc-cache", "--config", "../.sloc-guard.toml", "--baseline", "../bl2.json", "--update-baseline=all"]);
+    let b3 = p.baseline("bl2.json").unwrap_or_default();
+    if !b3.contains_key("src/c.rs") {
+        problems.push(format!("an update started in src/ recorded {:?} for src/c.rs", b3.keys().collect::<Vec<_>>()));
+    }
+    let _ = std::fs::remove_dir_all(&dir);
+    sink.push(Case { request: "noop".into(), implementation: "-".into(), pred: if problems.is_empty() { "ok".into() } else { format!("FAIL {}", problems.join("; ")) }, tag: "C10/started-below-root".into() });
+}
+
 pub fn run(which: Which, tier: Tier, seed: u64, out: &str) {
     let mut sink = Sink::create(out);
     let mut r = Rng::new(seed ^ (which as u64) << 40);
@@ -547,6 +611,9 @@ pub fn run(which: Which, tier: Tier, seed: u64, out: &str) {
             // a denied file whose line-count violation is recorded: the placement violation stays failed
             let t1 = Step { update: Some("all"), ..plain.clone() };
             history(&mut sink, &mut r.fork(), which, &scratch, &bin, 3, &[(&[("lib/denied.rs", 9)], t1), (&[], plain.clone()), (&[], Step { fail_fast: true, ..plain.clone() })]);
+        }
+        if which == Which::C10 {
+            subdir_case(&mut sink, &scratch, &bin);
         }
         if which == Which::C11 {
             let plain = Step { root: None, given: true, update: None, ratchet: None, ratchet_by_config: false, warn_only: false, wae: false, files: vec![], fail_fast: false, ff_by_config: false, threads: 1 };
